@@ -319,7 +319,8 @@ _ELEM = {"C": "carbon", "N": "nitrogen", "O": "oxygen", "S": "sulfur", "H": "hyd
 
 
 def build_peptide(chains, drop=(), reverse_atoms=False, hydrogens=False):
-    """chains: list of lists of residue names.  drop: set of (global residue index, atom name) left out.
+    """chains: list of lists of residue names ("TYPE" or "TYPE:NAME-IN-TOPOLOGY").  drop: set of (global residue index,
+    atom name) left out.
     Returns (topology, layout) where layout = list per chain of list per residue of (resname, {atom name: index}).
     The layout is recorded while building, i.e. independent of mdtraj's own lookups."""
     import mdtraj as md
@@ -331,7 +332,9 @@ def build_peptide(chains, drop=(), reverse_atoms=False, hydrogens=False):
         ch = top.add_chain()
         lay = []
         for k, rn in enumerate(names):
-            res = top.add_residue(rn, ch, resSeq=ridx + 1)
+            # "HIS:HID": built with the atoms of HIS (recorded as HIS in the layout), named HID in the topology
+            rn, topname = rn.split(":") if ":" in rn else (rn, rn)
+            res = top.add_residue(topname, ch, resSeq=ridx + 1)
             if SIDECHAIN[rn] is None:
                 atoms = ["O", "H1", "H2"]
             else:
